@@ -1469,6 +1469,53 @@ func c09Edge(w *World, r *Result, rule string) {
 				if h == nil || h.Blocks == nil || !w.IsProduct(pkgOf(h)) || returnsNode(h) {
 					continue
 				}
+				// a set per caller: the helper looks the caller's set up (making it when absent) and
+				// enters the callee into it on all its paths
+				for _, hb := range h.Blocks {
+					for _, hi := range hb.Instrs {
+						var setV, elemV ssa.Value
+						switch y := hi.(type) {
+						case *ssa.MapUpdate:
+							setV, elemV = y.Map, y.Key
+						case *ssa.Call:
+							if c2 := y.Call.StaticCallee(); c2 != nil && wrapsMapUpdate(c2) && len(y.Call.Args) == 2 {
+								setV, elemV = y.Call.Args[0], y.Call.Args[1]
+							}
+						}
+						if setV == nil || !dominatesReturns(h, hb) {
+							continue
+						}
+						// the set comes from a lookup of the outer map under a parameter
+						var outerKey ssa.Value
+						var from func(v ssa.Value, d int)
+						from = func(v ssa.Value, d int) {
+							if d > 4 || outerKey != nil {
+								return
+							}
+							switch z := v.(type) {
+							case *ssa.Phi:
+								for _, e := range z.Edges {
+									from(e, d+1)
+								}
+							case *ssa.Extract:
+								from(z.Tuple, d+1)
+							case *ssa.Lookup:
+								if _, isMap := z.X.Type().Underlying().(*types.Map); isMap {
+									outerKey = z.Index
+								}
+							}
+						}
+						from(setV, 0)
+						if outerKey == nil {
+							continue
+						}
+						keyArg := argForParam(h, outerKey, call)
+						elArg := argForParam(h, elemV, call)
+						if keyArg != nil && elArg != nil {
+							recs = append(recs, recSite{call, keyArg, []ssa.Value{elArg}})
+						}
+					}
+				}
 				for _, hb := range h.Blocks {
 					for _, hi := range hb.Instrs {
 						mu, ok := hi.(*ssa.MapUpdate)
@@ -1608,6 +1655,9 @@ func c09Edge(w *World, r *Result, rule string) {
 					switch x := ins.(type) {
 					case *ssa.Call:
 						if callee := x.Call.StaticCallee(); callee != nil && strings.HasPrefix(callee.String(), "slices.Contains") {
+							hasContains = true
+						}
+						if callee := x.Call.StaticCallee(); callee != nil && isSetLookupFn(callee) {
 							hasContains = true
 						}
 					case *ssa.Lookup:
@@ -3114,7 +3164,17 @@ func c09MergeComplete(w *World, r *Result, rule string) {
 					if !ok || !isString(mt.Key()) {
 						continue
 					}
-					if sl, ok := mt.Elem().Underlying().(*types.Slice); !ok || !isString(sl.Elem()) {
+					// the call edges: per caller a list of callee names, or a set of them
+					isEdges := false
+					if sl, ok := mt.Elem().Underlying().(*types.Slice); ok && isString(sl.Elem()) {
+						isEdges = true
+					}
+					if inner, ok := mt.Elem().Underlying().(*types.Map); ok && isString(inner.Key()) {
+						if est, ok := inner.Elem().Underlying().(*types.Struct); ok && est.NumFields() == 0 {
+							isEdges = true
+						}
+					}
+					if !isEdges {
 						continue
 					}
 					n++
@@ -3253,6 +3313,11 @@ func c09MergeComplete(w *World, r *Result, rule string) {
 							switch x := i2.(type) {
 							case *ssa.MapUpdate:
 								if isDst(x.Map) && x.Key == keyVal {
+									handled = true
+								}
+							case *ssa.Range:
+								// the entry's elements are walked (range over a set)
+								if x.X == elemVal && elemVal != nil {
 									handled = true
 								}
 							case *ssa.Call:
